@@ -9,7 +9,7 @@ package main
 
 import (
 	"fmt"
-	"strings"
+	"go/types"
 
 	"golang.org/x/tools/go/ssa"
 )
@@ -45,8 +45,12 @@ func encodedTextOrigin(p *Program, v ssa.Value, fn *ssa.Function, depth int) (bo
 			return true, "text of an XML element or attribute"
 		}
 		// the endpoint the user configures (exported constructor of the client)
-		if fn.Object() != nil && fn.Object().Exported() && fn.Signature.Recv() == nil && strings.HasPrefix(fn.Name(), "New") {
-			return true, "endpoint given to " + fn.Name()
+		if fn.Object() != nil && fn.Object().Exported() && fn.Signature.Recv() == nil && fn.Signature.Results().Len() >= 1 {
+			if pt, ok := fn.Signature.Results().At(0).Type().(*types.Pointer); ok {
+				if n := namedOf(pt.Elem()); n != nil && n.Obj().Name() == "Client" {
+					return true, "endpoint given to the client constructor " + fn.Name()
+				}
+			}
 		}
 		// a helper: every caller passes encoded text
 		callers := 0
